@@ -42,6 +42,41 @@ func smtValueToBig(v string) (*big.Int, bool) {
 			n.Neg(n)
 		}
 		return n, ok
+	case strings.HasPrefix(v, "(fp "):
+		f := strings.Fields(strings.TrimSuffix(strings.TrimPrefix(v, "(fp "), ")"))
+		if len(f) == 3 {
+			bits := ""
+			for _, p := range f {
+				switch {
+				case strings.HasPrefix(p, "#b"):
+					bits += p[2:]
+				case strings.HasPrefix(p, "#x"):
+					n, _ := new(big.Int).SetString(p[2:], 16)
+					bits += fmt.Sprintf("%0*b", 4*(len(p)-2), n)
+				}
+			}
+			n, ok := new(big.Int).SetString(bits, 2)
+			return n, ok
+		}
+		return nil, false
+	case strings.HasPrefix(v, "(_ +zero"):
+		return big.NewInt(0), true
+	case strings.HasPrefix(v, "(_ -zero 8"):
+		return new(big.Int).Lsh(big.NewInt(1), 31), true
+	case strings.HasPrefix(v, "(_ -zero 11"):
+		return new(big.Int).Lsh(big.NewInt(1), 63), true
+	case strings.HasPrefix(v, "(_ +oo 8"):
+		return big.NewInt(0x7f800000), true
+	case strings.HasPrefix(v, "(_ -oo 8"):
+		return big.NewInt(0xff800000), true
+	case strings.HasPrefix(v, "(_ NaN 8"):
+		return big.NewInt(0x7fc00000), true
+	case strings.HasPrefix(v, "(_ +oo 11"):
+		return new(big.Int).SetUint64(0x7ff0000000000000), true
+	case strings.HasPrefix(v, "(_ -oo 11"):
+		return new(big.Int).SetUint64(0xfff0000000000000), true
+	case strings.HasPrefix(v, "(_ NaN 11"):
+		return new(big.Int).SetUint64(0x7ff8000000000000), true
 	case v == "true":
 		return big.NewInt(1), true
 	case v == "false":
@@ -152,6 +187,12 @@ func goLit(t types.Type, v *big.Int) string {
 		}
 		return fmt.Sprintf("%s(%s)", relType(t), v.String())
 	}
+	switch floatBits(t) {
+	case 32:
+		return fmt.Sprintf("%s(math.Float32frombits(0x%x))", relType(t), v)
+	case 64:
+		return fmt.Sprintf("%s(math.Float64frombits(0x%x))", relType(t), v)
+	}
 	return ""
 }
 
@@ -186,7 +227,7 @@ func clauseToGo(text string) (string, bool) {
 func buildReplayTest(eng *Engine, ct *Contract, nr *namedResult, lens map[string]int64, scal map[string]*big.Int, bytesOf map[string][]byte) (string, bool) {
 	fn := ct.Fn
 	var b strings.Builder
-	b.WriteString("package rtcp\n\nimport (\n\t\"fmt\"\n\t\"testing\"\n)\n\nfunc TestGovcReplay(t *testing.T) {\n")
+	b.WriteString("package rtcp\n\nimport (\n\t\"fmt\"\n\t\"math\"\n\t\"testing\"\n)\n\nvar _ = math.Pi\n\nfunc TestGovcReplay(t *testing.T) {\n")
 	var build func(name string, t types.Type) (string, bool)
 	build = func(name string, t types.Type) (string, bool) {
 		if v, ok := scal[name]; ok {
@@ -194,7 +235,7 @@ func buildReplayTest(eng *Engine, ct *Contract, nr *namedResult, lens map[string
 				return l, true
 			}
 		}
-		if _, _, ok := intWidth(t); ok || isBoolType(t) {
+		if _, _, ok := intWidth(t); ok || isBoolType(t) || floatBits(t) > 0 {
 			return goLit(t, new(big.Int)), true // unconstrained in the model
 		}
 		switch ut := t.Underlying().(type) {
